@@ -921,10 +921,14 @@ impl Shape {
     /// mention; every hit carries an id that was added, no NUL, and - markers deleted - the stored title with the language's
     /// compositions applied (by the case's own reading of the table) and NULs dropped.
     fn user_lang_titles(&self, cx: &mut Cx) {
+        let mut twin = Rng(cx.rng.0);
         let mut ul = crate::userlang::UserLang::random(&mut cx.rng);
+        // (a second language object built from the same tables: the oracle side of C05 / C09 tokenises with it)
+        let ul2 = crate::userlang::UserLang::random(&mut twin);
         let desc = ul.desc();
         let n = cx.rng.range(1, 4);
         let recs: Vec<Rec> = (0..n).map(|i| (i + 1, ul.text(&mut cx.rng, 4), cx.rng.below(5))).collect();
+        let toks: Vec<TextOwn> = recs.iter().map(|r| tokenization::tokenize_record(&r.1, &ul2.lang)).collect();
         let mut store = Store::new();
         store.lang = std::mem::replace(&mut ul.lang, Lang::new());
         store.limit = 10;
@@ -951,6 +955,7 @@ impl Shape {
             cx.ctx(format!("C02 user-defined language {} recs={:?} q={:?}", desc, recs, q));
             let hits: Hits = store.search(&tokenize_query(&q, &store.lang).to_ref()).into_iter().map(|r| (r.id, r.title)).collect();
             cx.eval();
+            let tq = tokenize_query(&q, &ul2.lang);
             for hit in &hits {
                 cx.eval();
                 let describe = |hit: &(usize, String)| json!({"language": "defined by the case through the public Lang API", "tables": desc, "records": recs, "query": q, "hit": {"id": hit.0, "title": hit.1}});
@@ -961,6 +966,46 @@ impl Shape {
                     }
                     Some(r) => r,
                 };
+                if self.0 != Which::Titles {
+                    // C09 / C05 on the same stores: the markup parsed against the record's tokenisation by the twin language object
+                    let rtok = &toks[rec.0 - 1];
+                    cx.count("hits in stores of a random language");
+                    match oracle::spans_of(&hit.1, rtok) {
+                        Err(e) => {
+                            if self.0 == Which::Markup {
+                                cx.fail("markup-unbalanced", json!({"tables": desc, "stored": rec.1, "query": q, "returned": hit.1, "error": e}));
+                            }
+                        }
+                        Ok(spans) => {
+                            if !spans.is_empty() {
+                                cx.count("hits with a span in stores of a random language");
+                                cx.key(hparts(&["userlang", &desc.to_string(), &rec.1, &q]));
+                            }
+                            let stretch = if tq.words.is_empty() { 0 } else { tq.words[tq.words.len() - 1].slice.1 - tq.words[0].slice.0 };
+                            for (a, b) in &spans {
+                                if self.0 == Which::Markup {
+                                    match rtok.words.iter().find(|w| w.slice.0 == *a) {
+                                        None => cx.fail("span-not-at-word-start", json!({"tables": desc, "stored": rec.1, "query": q, "returned": hit.1, "span": [a, b]})),
+                                        Some(w) => {
+                                            if *b > w.slice.1 {
+                                                cx.fail("span-crosses-word-end", json!({"tables": desc, "stored": rec.1, "query": q, "returned": hit.1, "span": [a, b]}));
+                                            }
+                                        }
+                                    }
+                                } else if !tq.words.is_empty() && b - a > stretch + 1 {
+                                    cx.fail("span-longer-than-typed", json!({"tables": desc, "stored": rec.1, "query": q, "returned": hit.1, "span": [a, b], "query_stretch": stretch}));
+                                }
+                            }
+                            if self.0 == Which::Markup && spans.is_empty() != tq.words.is_empty() && spans.is_empty() == oracle::has_alnum(&q) {
+                                cx.fail(if spans.is_empty() { "hit-without-highlight" } else { "highlight-without-query-word" }, json!({"tables": desc, "stored": rec.1, "query": q, "returned": hit.1}));
+                            }
+                            if self.0 == Which::Related && !tq.words.is_empty() && oracle::grams_of(rtok).intersection(&oracle::grams_of(&tq)).next().is_none() {
+                                cx.fail("unrelated-hit", describe(hit));
+                            }
+                        }
+                    }
+                    continue;
+                }
                 if hit.1.contains('\0') {
                     cx.fail("nul-in-title", describe(hit));
                 }
@@ -1000,8 +1045,8 @@ impl Prop for Shape {
     fn streams(&self) -> Vec<Stream> {
         match self.0 {
             Which::Titles => vec![Stream::new("stores", 16000, 800000), Stream::new("bridge", 3200, 160000), Stream::new("userlang", 4000, 200000)],
-            Which::Related => vec![Stream::new("stores", 16000, 800000), Stream::new("exact", 168, 8400), Stream::new("joined", 8000, 400000), Stream::new("corpus", 64, 1600), Stream::new("big", 16, 160), Stream::new("session", 16, 96)],
-            Which::Markup => vec![Stream::new("stores", 20000, 1000000), Stream::new("joined", 16000, 800000)],
+            Which::Related => vec![Stream::new("userlang", 4000, 200000), Stream::new("stores", 16000, 800000), Stream::new("exact", 168, 8400), Stream::new("joined", 8000, 400000), Stream::new("corpus", 64, 1600), Stream::new("big", 16, 160), Stream::new("session", 16, 96)],
+            Which::Markup => vec![Stream::new("userlang", 4000, 200000), Stream::new("stores", 20000, 1000000), Stream::new("joined", 16000, 800000)],
         }
     }
     fn floors(&self) -> Vec<(&'static str, u64, u64)> {
